@@ -352,4 +352,73 @@ theorem required_struct_omission (ts : List Tree) (hneed : Trees.need ts + 2 ≤
     rw [Trees.fill_req ts kvs ts' hfill] at hreq
     cases hreq
 
+/-! ### constants are not required: what is supplied for them (if acceptable at all) does not matter -/
+
+def Tree.isConst : Tree → Bool
+  | .const _ _ => true
+  | _ => false
+
+/-- `fill` of one parameter depends on the supplied dictionary only through the parameter's own entry; for a constant
+    an omitted entry is as good as an accepted one -/
+theorem Tree.fill_congr (t : Tree) (kvs kvs2 : List (String × PVal)) (t' : Tree) (hf : t.fill kvs = some t')
+    (hval : t.isConst = false → lookup t.name kvs2 = lookup t.name kvs)
+    (hconst : t.isConst = true → lookupV t.name kvs2 = none ∨ lookupV t.name kvs2 = lookupV t.name kvs) :
+    t.fill kvs2 = some t' := by
+  cases t with
+  | int o d =>
+    have h := hval rfl
+    simp only [Tree.name] at h
+    simp only [Tree.fill, Obj.pick, h] at hf ⊢
+    exact hf
+  | const o c =>
+    have hc := Tree.fill_const_inv hf
+    subst hc
+    rcases hconst rfl with h | h
+    · simp only [Tree.name] at h
+      simp only [Tree.fill, h]
+    · simp only [Tree.name] at h
+      simp only [Tree.fill, h] at hf ⊢
+      exact hf
+  | struct n bp kids =>
+    have h := hval rfl
+    simp only [Tree.name] at h
+    simp only [Tree.fill, lookupV, h] at hf ⊢
+    exact hf
+
+theorem Trees.fill_congr (ts : List Tree) (kvs kvs2 : List (String × PVal)) :
+    ∀ (ts' : List Tree), Trees.fill ts kvs = some ts' →
+    (∀ t ∈ ts, t.isConst = false → lookup t.name kvs2 = lookup t.name kvs) →
+    (∀ t ∈ ts, t.isConst = true → lookupV t.name kvs2 = none ∨ lookupV t.name kvs2 = lookupV t.name kvs) →
+    Trees.fill ts kvs2 = some ts' := by
+  induction ts with
+  | nil => intro ts' hf _ _; exact hf
+  | cons t ts ih =>
+    intro ts' hf hval hconst
+    obtain ⟨t', ts0, h1, h2, rfl⟩ := Trees.fill_cons_inv hf
+    have a := Tree.fill_congr t kvs kvs2 t' h1 (hval t (List.mem_cons_self ..)) (hconst t (List.mem_cons_self ..))
+    have b := ih ts0 h2 (fun u hu => hval u (List.mem_cons_of_mem _ hu)) (fun u hu => hconst u (List.mem_cons_of_mem _ hu))
+    simp only [Trees.fill, a, b]
+
+/-- two supplied dictionaries that differ only in what they say about constants (the second may omit them) give the
+    same PDU -/
+theorem const_not_required (ts : List Tree) (hneed : Trees.need ts + 2 ≤ modelFuel) (hd : Trees.descOk ts)
+    (kvs kvs2 : List (String × PVal)) (trig : Option Bytes) (r : Bytes × Nat)
+    (henc : encodeMessage none (Trees.toParams ts) (.dict kvs) trig true = .ok r)
+    (hknown : kvs2.any (fun kv => !((Trees.toParams ts).any fun p => p.name == kv.1)) = false)
+    (hval : ∀ t ∈ ts, t.isConst = false → lookup t.name kvs2 = lookup t.name kvs)
+    (hconst : ∀ t ∈ ts, t.isConst = true → lookupV t.name kvs2 = none ∨ lookupV t.name kvs2 = lookupV t.name kvs) :
+    encodeMessage none (Trees.toParams ts) (.dict kvs2) trig true = .ok r := by
+  rcases encodeMessage_struct_cases ts hneed hd (.dict kvs) trig with ⟨_, e, hrun, _⟩ | ⟨k, ts', s0, hpv, hfill, _, hm, hu, hw, hcur, ho, hrun⟩
+  · rw [hrun] at henc; cases henc
+  · cases hpv
+    have hfill2 := Trees.fill_congr ts kvs kvs2 ts' hfill hval hconst
+    rcases encodeMessage_struct_cases ts hneed hd (.dict kvs2) trig with ⟨hacc, _⟩ | ⟨k2, ts2, s2, hpv2, hf2, _, hm2, hu2, hw2, hcur2, ho2, hrun2⟩
+    · simp [PVal.acceptedBy, hknown, hfill2] at hacc
+    · cases hpv2
+      rw [hfill2] at hf2
+      cases hf2
+      have hg := Trees.good ts' (Trees.fill_ok ts hd kvs ts' hfill).1
+      have hcore := hg.core s2 s0 ⟨by rw [hm, hm2], by rw [hu, hu2], by rw [hw, hw2], by rw [hcur, hcur2], by rw [ho, ho2]⟩
+      rw [hrun2, ← henc, hrun, hcore.1, hcore.2.2.1]
+
 end OdxVerif.Codec
